@@ -28,6 +28,8 @@ def stopping_plan(prop, ctx, with_t3=False, with_x=True):
     P.append(sweep.family_shards(prop, "U-D", j))
     P.append(sweep.family_shards(prop, "U-E", j))
     P.append(sweep.family_shards(prop, "U-L", j))
+    P.append(sweep.family_shards(prop, "U-K", j))
+    P.append(sweep.family_shards(prop, "U-H", 1000))
     P.append(sweep.family_shards(prop, "U-W", 1000))
     P.append(sweep.family_shards(prop, "U-Z", j))
     P.append(sweep.family_shards(prop, "U-R", j))
@@ -66,6 +68,7 @@ def all_games_plan(prop, ctx, thresholds=False):
         P.append(sweep.family_shards(prop, "U-F", j, max_deg=3))
     P.append(sweep.family_shards(prop, "U-D", j))
     P.append(sweep.family_shards(prop, "U-E", j))
+    P.append(sweep.family_shards(prop, "U-K", j))
     P.append(sweep.family_shards(prop, "U-W", 1000))
     P.append(sweep.family_shards(prop, "U-Z", j))
     P.append(sweep.family_shards(prop, "U-R", j))
